@@ -167,3 +167,70 @@ def validate(work, scripts, results, consts=None, batch=40):
             verdicts.update(o)
     shutil.rmtree(wdir, ignore_errors=True)
     return verdicts, stats
+
+
+def spec_generated_scripts(work, n, seed, passive=False, steps=18):
+    """spec -> code: TLC simulates Gen.tla (the timed system specification with an environment that moves
+    at quiescence) and prints the environment's moves; they become harness scripts."""
+    import re
+    sys.path.insert(0, os.path.join(os.path.dirname(__file__), ".."))
+    import bgp
+    d = work.sub("gen%d" % (1 if passive else 0))
+    C.copy_specs(d)
+    with open(os.path.join(d, "Gen.cfg"), "w") as f:
+        f.write("SPECIFICATION GSpec\nCONSTANTS\n  Timed = TRUE\n  RecordOut = FALSE\n  KnownD14 = TRUE\n"
+                "  GenSteps = %d\n  GenPassive = %s\nCHECK_DEADLOCK FALSE\n" % (steps, "TRUE" if passive else "FALSE"))
+    r = C.tlc(d, "Gen.tla", "Gen.cfg", workers=1, timeout=900, heap="3g",
+              extra=["-simulate", "num=%d" % n, "-depth", "900", "-seed", str(seed)])
+    shutil.rmtree(d, ignore_errors=True)
+    raw = re.findall(r'<<"SCRIPT", (".*")>>', r.out)
+    if not raw:
+        raise C.Inconclusive("script generation by TLC produced nothing:\n" + r.out[-2000:])
+    seen = set()
+    out = []
+    rid = {"openLo": "10.0.0.0", "openHi": "10.0.0.2", "openka": "10.0.0.2", "openBad": "10.0.0.0"}
+    for k, js in enumerate(raw):
+        key = js
+        if key in seen:
+            continue
+        seen.add(key)
+        moves = json.loads(json.loads(js))
+        p = bgp.peer(hold=9, passive=passive)
+        steps_ = [bgp.step("addPeer", peer="p1"), bgp.step("serve")]
+        for m in moves:
+            op = m["op"]
+            if op == "connect":
+                steps_.append(bgp.step("connect", conn=m["conn"], src="10.0.0.2:40000", dst="10.0.0.1:179"))
+            elif op == "dialAccept":
+                steps_.append(bgp.step("dialAccept", peer="p1", conn=m["conn"]))
+            elif op == "dialRefuse":
+                steps_.append(bgp.step("dialRefuse", peer="p1"))
+            elif op == "send":
+                mm = m["m"]
+                if mm in ("openLo", "openHi", "openka"):
+                    b = bgp.open_msg(65002, 9, bgp.ip4(rid[mm])) + (bgp.keepalive() if mm == "openka" else [])
+                elif mm == "openBad":
+                    b = bgp.open_msg(65002, 1, bgp.ip4(rid[mm]))
+                elif mm == "ka":
+                    b = bgp.keepalive()
+                elif mm == "upd":
+                    b = bgp.update([0, 0, 0, 0])
+                elif mm == "cease":
+                    b = bgp.notification(6, 0)
+                elif mm == "notif":
+                    b = bgp.notification(3, 1)
+                else:
+                    b = [0xFF] * 15 + [0, 0, 19, 4]
+                steps_.append(bgp.step("send", conn=m["conn"], b=b))
+            elif op in ("rclose", "rreset"):
+                steps_.append(bgp.step(op, conn=m["conn"]))
+            elif op == "advance":
+                steps_.append(bgp.step("advance", d=m["d"]))
+            elif op == "deletePeer":
+                steps_.append(bgp.step("deletePeer", peer="p1"))
+            elif op == "close":
+                steps_.append(bgp.step("close"))
+        s = bgp.script("gen-%s%d-%d" % ("p" if passive else "a", seed, k), [p], steps_)
+        s["tags"] = ["specgen"]
+        out.append(s)
+    return out
